@@ -40,6 +40,7 @@ type EntryCfg struct {
 	Total     bool              `json:"total"` // unwinding-bound hits are candidate non-termination violations
 	TimeoutS  int               `json:"timeout_s"`
 	Clause    string            `json:"clause"`
+	NoRedirect []string         `json:"no_redirect"` // spec redirects that do not apply to this entry
 }
 
 type Substitution struct {
@@ -62,6 +63,7 @@ type Spec struct {
 	Bounds     map[string]string `json:"bounds"`
 	Outside    []string          `json:"outside"`
 	GoInline   bool              `json:"go_inline"`
+	Parts      []string          `json:"parts"` // further spec files of the same property (other modules / package sets)
 	Tags       []string          `json:"tags"`
 }
 
